@@ -99,7 +99,7 @@ CHECKS = {
         level="exploration",
         parts=[dict(harness="chk_C07", variant="seq", src="checks/chk_C07.cpp",
                     runs=dict(quick=4000, thorough=80000), wall_cap=dict(quick=150, thorough=2400))],
-        rule=("one case = generated small problem (scanner, image, Poisson-like data, additive term on/off, symmetries on/off, number of "
+        rule=("one case = generated small problem (scanner, image, Poisson-like data, additive term on/off, bin efficiencies on/off, symmetries on/off, number of "
               "subsets, start subset, subset sensitivities on/off, save interval, 1..3 full iterations) and one class: formula (EM step on "
               "the explicit matrix after every sub-iteration, non-negativity, monotone likelihood and count preservation for one subset); "
               "crash (process dies at a write call drawn over ALL write calls of the run, lost / torn / complete, up to 3 crashes, restart "
@@ -111,7 +111,7 @@ CHECKS = {
                         stub=STUB_IO + ["explicit system matrix from the ray-tracing matrix without cache and symmetries (reference)"]),
         assumptions=["restart protocol: newest iterate that read_from_file accepts, start at k+1, enforce initial positivity off (the image is "
                      "an iterate), sensitivities recomputed or re-read; with the library defaults agreement is checked to 1e-5 of the maximum",
-                     "process-crash model, no fsync", "no prior / filters in the crash classes; trivial normalisation"],
+                     "process-crash model, no fsync", "no prior / filters in the crash classes; normalisation (bin efficiencies from projection data) on in 40 % of the problems; RDP prior and inter-update filters are not exercised"],
         distinct_by_hash=True,
     ),
     "C08": dict(
